@@ -511,6 +511,8 @@ func TransformJSONProtoToDSL(model *openfgav1.AuthorizationModel, opts ...Transf
 	}
 
 	if isModularModel {
+		// sort a copy, the model belongs to the caller
+		typeDefs = slices.Clone(typeDefs)
 		slices.SortStableFunc(typeDefs, func(a, b *openfgav1.TypeDefinition) int {
 			return sortByModule(
 				a.GetType(), b.GetType(),
